@@ -6,11 +6,18 @@
    evaluation of a storage reply [evalf] and the problems-only view [filt] are ANY functions; names are ANY byte
    strings.  [cfg_ok L fixed0]: lifetime L >= 0, and the cache is consulted only when L > 0 (the repaired code:
    fixed0 = true, see cfg_ok_repaired).
+   A request is (cluster, group, ShowAll).  The status objects evaluateConsumerStatus makes live in a heap; the cache
+   and every requester of the full view hold the SAME object, the filtered view is an operation [filt_op] on that object
+   (Cache.deliver); the code's operation is [pure_op filt] (it copies), for which all run theorems below are stated.
+   What stays true BY CONSTRUCTION of the model (faithful to the code, but not a theorem with content): the ShowAll flag is
+   read only at the reply step (getConsumerStatus reads request.ShowAll after Query returned), so it cannot influence
+   what is fetched or cached; check_obs_sound takes the delivered body as view sa v of the EvReply event (that this is
+   what the requester is really handed is filtered_does_not_disturb); the evaluation clock is the fetch time s.
    Reply event: EvReply i t rc rg c g v s cr r start = request i (for cluster rc, group rg) is answered at time t with
    names (c, g) and status v (None = NOTFOUND), computed from the storage fetch made at s, stored at cr, found valid
    at r; the request's first step was at start. *)
 From Coq Require Import ZArith List Bool Lia.
-From Burrow Require Import Cache CacheProofs.
+From Burrow Require Import Eval AMap Storage Cache CacheProofs CacheStorageProofs.
 Import ListNotations.
 Open Scope Z_scope.
 
@@ -42,7 +49,7 @@ Print Assumptions key_collision_refuted.
 
 Theorem names_shared_old_refuted :
   exists reqs sched,
-    hd_error (trace (run Z Z (fun _ d => d) wit_lookup1 mk_key_old split_key_old 10 true reqs sched))
+    hd_error (trace (run Z Z (fun _ d => d) (pure_op (fun v => v)) wit_lookup1 mk_key_old split_key_old 10 true reqs sched))
     = Some (EvReply 0 4 [97; 32; 98] [99] [97] [98; 32; 99] (Some 7) 2 3 3 1)
     /\ wit_lookup1 2 [97; 32; 98] [99] = None.
 Proof. exact CacheProofs.names_shared_old_refuted. Qed.
@@ -50,7 +57,7 @@ Print Assumptions names_shared_old_refuted.
 
 Theorem zero_lifetime_old_refuted :
   exists reqs sched,
-    hd_error (trace (run Z Z (fun _ d => d) wit_lookup2 mk_key split_key 0 false reqs sched))
+    hd_error (trace (run Z Z (fun _ d => d) (pure_op (fun v => v)) wit_lookup2 mk_key split_key 0 false reqs sched))
     = Some (EvReply 1 1001 [97] [103] [97] [103] (Some 7) 2 3 1000 1000)
     /\ wit_lookup2 1000 [97] [103] = None.
 Proof. exact CacheProofs.zero_lifetime_old_refuted. Qed.
@@ -61,16 +68,16 @@ Print Assumptions zero_lifetime_old_refuted.
 (* exactly one reply per request -- never two in any schedule, one as soon as the request's goroutine has been given
    five steps (no step can block), none for anything that is not a request -- naming the request's cluster and group *)
 Theorem one_reply_named :
-  forall (data value : Type) (evalf : Z -> data -> value) (lookup : Z -> name -> name -> option data)
-         (L : Z) (fixed0 : bool) (reqs : list (name * name)) (sched : list (nat * Z)) (i : nat),
+  forall (data value : Type) (evalf : Z -> data -> value) (filt : value -> value) (lookup : Z -> name -> name -> option data)
+         (L : Z) (fixed0 : bool) (reqs : list (name * name * bool)) (sched : list (nat * Z)) (i : nat),
     cfg_ok L fixed0 ->
-    let tr := trace (run data value evalf lookup mk_key split_key L fixed0 reqs sched) in
+    let tr := trace (run data value evalf (pure_op filt) lookup mk_key split_key L fixed0 reqs sched) in
     (length (replies_of data value i tr) <= 1)%nat
     /\ ((i < length reqs)%nat -> (5 <= occ i sched)%nat -> length (replies_of data value i tr) = 1%nat)
     /\ ((length reqs <= i)%nat -> replies_of data value i tr = [])
     /\ (forall t rc rg c g v s cr r start,
           In (EvReply i t rc rg c g v s cr r start) tr ->
-          nth_error reqs i = Some (rc, rg) /\ c = rc /\ g = rg).
+          (exists sa, nth_error reqs i = Some (rc, rg, sa)) /\ c = rc /\ g = rg).
 Proof. exact CacheProofs.one_reply_named. Qed.
 Print Assumptions one_reply_named.
 
@@ -78,11 +85,11 @@ Print Assumptions one_reply_named.
    that fetch is in the trace --; its result was stored at cr >= s, and at some moment r within the request
    (start <= r <= t) it was still valid: r <= cr + L, i.e. r - s <= L + evaluation time (cr - s) *)
 Theorem staleness_bound :
-  forall (data value : Type) (evalf : Z -> data -> value) (lookup : Z -> name -> name -> option data)
-         (L : Z) (fixed0 : bool) (reqs : list (name * name)) (sched : list (nat * Z))
+  forall (data value : Type) (evalf : Z -> data -> value) (filt : value -> value) (lookup : Z -> name -> name -> option data)
+         (L : Z) (fixed0 : bool) (reqs : list (name * name * bool)) (sched : list (nat * Z))
          i t rc rg c g v s cr r start,
     cfg_ok L fixed0 ->
-    let tr := trace (run data value evalf lookup mk_key split_key L fixed0 reqs sched) in
+    let tr := trace (run data value evalf (pure_op filt) lookup mk_key split_key L fixed0 reqs sched) in
     In (EvReply i t rc rg c g v s cr r start) tr ->
     v = option_map (evalf s) (lookup s rc rg)
     /\ (exists tid, In (EvLookup tid s rc rg (lookup s rc rg)) tr)
@@ -92,22 +99,22 @@ Print Assumptions staleness_bound.
 
 (* NOTFOUND exactly when storage held no live data for the group at that moment s *)
 Theorem notfound_iff :
-  forall (data value : Type) (evalf : Z -> data -> value) (lookup : Z -> name -> name -> option data)
-         (L : Z) (fixed0 : bool) (reqs : list (name * name)) (sched : list (nat * Z))
+  forall (data value : Type) (evalf : Z -> data -> value) (filt : value -> value) (lookup : Z -> name -> name -> option data)
+         (L : Z) (fixed0 : bool) (reqs : list (name * name * bool)) (sched : list (nat * Z))
          i t rc rg c g v s cr r start,
     cfg_ok L fixed0 ->
-    In (EvReply i t rc rg c g v s cr r start) (trace (run data value evalf lookup mk_key split_key L fixed0 reqs sched)) ->
+    In (EvReply i t rc rg c g v s cr r start) (trace (run data value evalf (pure_op filt) lookup mk_key split_key L fixed0 reqs sched)) ->
     (v = None <-> lookup s rc rg = None).
 Proof. exact CacheProofs.notfound_iff. Qed.
 Print Assumptions notfound_iff.
 
 (* requests for different (cluster, group) pairs have different keys, and each is answered from fetches of its own pair *)
 Theorem not_shared :
-  forall (data value : Type) (evalf : Z -> data -> value) (lookup : Z -> name -> name -> option data)
-         (L : Z) (fixed0 : bool) (reqs : list (name * name)) (sched : list (nat * Z))
+  forall (data value : Type) (evalf : Z -> data -> value) (filt : value -> value) (lookup : Z -> name -> name -> option data)
+         (L : Z) (fixed0 : bool) (reqs : list (name * name * bool)) (sched : list (nat * Z))
          i t rc rg c g v s cr r start j t' rc' rg' c' g' v' s' cr' r' start',
     cfg_ok L fixed0 ->
-    let tr := trace (run data value evalf lookup mk_key split_key L fixed0 reqs sched) in
+    let tr := trace (run data value evalf (pure_op filt) lookup mk_key split_key L fixed0 reqs sched) in
     In (EvReply i t rc rg c g v s cr r start) tr ->
     In (EvReply j t' rc' rg' c' g' v' s' cr' r' start') tr ->
     (rc, rg) <> (rc', rg') ->
@@ -117,22 +124,53 @@ Theorem not_shared :
 Proof. exact CacheProofs.not_shared. Qed.
 Print Assumptions not_shared.
 
-(* which requests asked for the filtered view changes no event of the run (times, fetches, raw results): every request
-   is delivered the same whether the others were filtered or not *)
+(* serving a filtered view never changes what later requests see.  In every schedule every requester -- whoever was
+   served what before, filtered or not -- is handed exactly the view it asked for (sa is the ShowAll flag of its
+   request) of the status v that Query returned to it (the v of its own EvReply event, which staleness_bound and
+   notfound_iff describe); a later full view is the untouched evaluation.  This is NOT true by construction: the full
+   view hands out the cached object itself, the filtered view is an operation on that shared heap object, and the
+   theorem is about the code's operation pure_op filt (CacheProofs.inv3: every cached object stays what
+   evaluateConsumerStatus made it).  With an operation that builds the copy in place it fails: next theorem. *)
 Theorem filtered_does_not_disturb :
   forall (data value : Type) (evalf : Z -> data -> value) (filt : value -> value)
          (lookup : Z -> name -> name -> option data) (L : Z) (fixed0 : bool)
-         (reqs reqs' : list (name * name * bool)) (sched : list (nat * Z)),
-    map fst reqs = map fst reqs' ->
-    trace (run data value evalf lookup mk_key split_key L fixed0 (map fst reqs) sched)
-    = trace (run data value evalf lookup mk_key split_key L fixed0 (map fst reqs') sched)
-    /\ (forall i sa, nth_error (map snd reqs) i = Some sa -> nth_error (map snd reqs') i = Some sa ->
-          map (delivered data value filt sa)
-              (replies_of data value i (trace (run data value evalf lookup mk_key split_key L fixed0 (map fst reqs) sched)))
-          = map (delivered data value filt sa)
-              (replies_of data value i (trace (run data value evalf lookup mk_key split_key L fixed0 (map fst reqs') sched)))).
+         (reqs : list (name * name * bool)) (sched : list (nat * Z)) i t sa v dv,
+    let tr := trace (run data value evalf (pure_op filt) lookup mk_key split_key L fixed0 reqs sched) in
+    In (EvDeliver i t sa v dv) tr ->
+    dv = option_map (view value filt sa) v
+    /\ (exists rc rg c g s cr r start, In (EvReply i t rc rg c g v s cr r start) tr)
+    /\ (exists rc rg, nth_error reqs i = Some (rc, rg, sa)).
 Proof. exact CacheProofs.filtered_does_not_disturb. Qed.
 Print Assumptions filtered_does_not_disturb.
+
+(* what the probe's "reply objects unchanged afterwards" guards: with a filtered view built in place
+   (wit_alias_op: the cached object is left holding the filtered list) request 0 (filtered) is served, then request 1
+   (full view of the same group, served from the cache) is handed [3] although Query returned the evaluation [1; 3];
+   with the code's copying operation the same run hands it [1; 3] *)
+Theorem filtered_aliasing_refuted :
+  exists reqs sched,
+    nth_error (trace (run (list Z) (list Z) (fun _ d => d) wit_alias_op wit_lookup3 mk_key split_key 10 true reqs sched)) 1
+    = Some (EvDeliver 1 6 true (Some [1; 3]) (Some [3]))
+    /\ Some [3] <> option_map (view (list Z) wit_filt true) (Some [1; 3])
+    /\ nth_error (trace (run (list Z) (list Z) (fun _ d => d) (pure_op wit_filt) wit_lookup3 mk_key split_key 10 true reqs sched)) 1
+       = Some (EvDeliver 1 6 true (Some [1; 3]) (Some [1; 3])).
+Proof. exact CacheProofs.filtered_aliasing_refuted. Qed.
+Print Assumptions filtered_aliasing_refuted.
+
+(* the delivery-time reading (what the observation oracle enforces): a request issued at qt, not after its first step,
+   answered from a fetch whose evaluation (fetch to store) took at most slack, reflects storage no older than
+   L + slack when the request was made, and not newer than the reply *)
+Theorem delivery_age_bound :
+  forall (data value : Type) (evalf : Z -> data -> value) (filt : value -> value) (lookup : Z -> name -> name -> option data)
+         (L : Z) (fixed0 : bool) (reqs : list (name * name * bool)) (sched : list (nat * Z))
+         i t rc rg c g v s cr r start qt slack,
+    cfg_ok L fixed0 ->
+    In (EvReply i t rc rg c g v s cr r start)
+       (trace (run data value evalf (pure_op filt) lookup mk_key split_key L fixed0 reqs sched)) ->
+    qt <= start -> cr - s <= slack ->
+    qt - s <= L + slack /\ s <= t.
+Proof. exact CacheProofs.delivery_age_bound. Qed.
+Print Assumptions delivery_age_bound.
 
 (* the property's oracle over observations alone (Cache.check_obs: one reply per request, naming it, equal to the
    evaluation -- NOTFOUND for nil -- of a storage fetch of the request's own pair that is not later than the reply and
@@ -146,7 +184,7 @@ Theorem check_obs_sound :
     (forall v, value_eqb v v = true) ->
     forall (qs : list oreq) (sched : list (nat * Z)) (slack : Z),
     cfg_ok L fixed0 ->
-    let tr := trace (run data value evalf lookup mk_key split_key L fixed0 (map (fun q => (q_c q, q_g q)) qs) sched) in
+    let tr := trace (run data value evalf (pure_op filt) lookup mk_key split_key L fixed0 (map (fun q => (q_c q, q_g q, q_sa q)) qs) sched) in
     (forall i, (i < length qs)%nat -> (5 <= occ i sched)%nat) ->
     (forall i t rc rg c g v s cr r start q,
         In (EvReply i t rc rg c g v s cr r start) tr -> nth_error qs i = Some q ->
@@ -155,6 +193,24 @@ Theorem check_obs_sound :
            (check_obs data value evalf filt L value_eqb slack qs (obs_looks data value tr) (obs_reps data value filt qs tr)).
 Proof. exact CacheProofs.check_obs_sound. Qed.
 Print Assumptions check_obs_sound.
+
+(* composed once with the storage layer (CacheStorageProofs.v): [lookup] is the storage model's FetchConsumer handler on
+   ANY storage history [sst] (state of the storage module at a wall-clock time), so "no live data" reads as Storage.v's
+   unknown cluster / unknown group / group past expire-group.  Hypothesis besides cfg_ok: the storage handler does not
+   crash on a fetch (storage layer, C08/C17). *)
+Theorem C05_notfound_means_absent :
+  forall (cf : Storage.config) (sst : Z -> Storage.state) (now_s : Z -> Z) (idc idg : name -> Z)
+         (value : Type) (evalf : Z -> list (Z * list cpart) -> value) (filt : value -> value) (L : Z) (fixed0 : bool)
+         (reqs : list (name * name * bool)) (sched : list (nat * Z)) i t rc rg c g v s cr r start,
+    cfg_ok L fixed0 ->
+    (forall t c g, fetch cf sst now_s idc idg t c g <> Crashed) ->
+    In (EvReply i t rc rg c g v s cr r start)
+       (trace (run (list (Z * list cpart)) value evalf (pure_op filt) (storage_lookup cf sst now_s idc idg)
+                   mk_key split_key L fixed0 reqs sched)) ->
+    (v = None <-> unknown_cluster sst idc s rc \/ unknown_group sst idc idg s rc rg \/ expired_group cf sst now_s idc idg s rc rg)
+    /\ s <= cr /\ cr <= t /\ start <= r /\ r <= t /\ r - s <= L + (cr - s).
+Proof. exact CacheStorageProofs.C05_notfound_means_absent. Qed.
+Print Assumptions C05_notfound_means_absent.
 
 (* ---- non-vacuity ---- *)
 
@@ -171,8 +227,9 @@ Proof. apply cfg_ok_repaired. lia. Qed.
    background refresh (thread 5). *)
 Definition ex_lookup (t : Z) (c g : name) : option Z :=
   if bytes_eqb c [97] && bytes_eqb g [98; 32; 99] && (t <? 100) then Some (t * 10) else None.
-Definition ex_reqs : list (name * name) :=
-  [([97; 32; 98], [99]); ([97], [98; 32; 99]); ([97], [98; 32; 99]); ([97], [98; 32; 99]); ([97], [98; 32; 99])].
+Definition ex_reqs : list (name * name * bool) :=
+  [([97; 32; 98], [99], true); ([97], [98; 32; 99], true); ([97], [98; 32; 99], false); ([97], [98; 32; 99], true);
+   ([97], [98; 32; 99], true)].
 Definition ex_sched : list (nat * Z) :=
   [(1%nat, 1); (2%nat, 2); (0%nat, 3); (1%nat, 4); (2%nat, 5); (0%nat, 6); (1%nat, 7); (2%nat, 8); (0%nat, 9); (0%nat, 10); (0%nat, 11);
    (2%nat, 12); (1%nat, 13);
@@ -180,7 +237,7 @@ Definition ex_sched : list (nat * Z) :=
    (4%nat, 2100); (4%nat, 2101); (5%nat, 2102); (5%nat, 2103); (5%nat, 2104); (5%nat, 2105)].
 Example ex_trace :
   filter (fun ev => match ev with EvReply _ _ _ _ _ _ _ _ _ _ _ => true | _ => false end)
-         (trace (run Z Z (fun _ d => d) ex_lookup mk_key split_key 1000 true ex_reqs ex_sched))
+         (trace (run Z Z (fun _ d => d) (pure_op (fun v => v)) ex_lookup mk_key split_key 1000 true ex_reqs ex_sched))
   = [EvReply 4 2101 [97] [98; 32; 99] [97] [98; 32; 99] None 2001 2002 2100 2100;
      EvReply 3 2004 [97] [98; 32; 99] [97] [98; 32; 99] None 2001 2002 2002 2000;
      EvReply 1 13 [97] [98; 32; 99] [97] [98; 32; 99] (Some 40) 4 7 7 1;
@@ -189,7 +246,7 @@ Example ex_trace :
 Proof. vm_compute. reflexivity. Qed.
 Example ex_refresh_fetch :
   In (EvLookup 5 2102 [97] [98; 32; 99] None)
-     (trace (run Z Z (fun _ d => d) ex_lookup mk_key split_key 1000 true ex_reqs ex_sched)).
+     (trace (run Z Z (fun _ d => d) (pure_op (fun v => v)) ex_lookup mk_key split_key 1000 true ex_reqs ex_sched)).
 Proof. vm_compute. tauto. Qed.
 (* steps taken: an error path needs five steps (thread 0, 3), a good path four; request 4 answered a cached NOTFOUND in two *)
 Example ex_steps : map (fun i => occ i ex_sched) [0; 1; 2; 3; 4; 5]%nat = [5; 4; 4; 5; 2; 4]%nat.
@@ -201,7 +258,7 @@ Proof. vm_compute. reflexivity. Qed.
 Definition ex_qs : list oreq :=
   [mkOreq [97; 32; 98] [99] true 3; mkOreq [97] [98; 32; 99] true 1; mkOreq [97] [98; 32; 99] false 2;
    mkOreq [97] [98; 32; 99] true 2000; mkOreq [97] [98; 32; 99] true 2100].
-Definition ex_tr := trace (run Z Z (fun _ d => d) ex_lookup mk_key split_key 1000 true ex_reqs ex_sched).
+Definition ex_tr := trace (run Z Z (fun _ d => d) (pure_op (fun v => v)) ex_lookup mk_key split_key 1000 true ex_reqs ex_sched).
 Example ex_oracle_accepts :
   check_obs Z Z (fun _ d => d) (fun v => v) 1000 Z.eqb 10 ex_qs (obs_looks Z Z ex_tr) (obs_reps Z Z (fun v => v) ex_qs ex_tr)
   = [0; 0; 0; 0; 0].
@@ -212,3 +269,18 @@ Example ex_oracle_rejects :
              :: skipn 2 (obs_reps Z Z (fun v => v) ex_qs ex_tr))
   = [0; 0; 0; 2; 3].
 Proof. vm_compute. reflexivity. Qed.
+
+(* the storage instantiation is inhabited: a storage module that knows cluster 1 and no group never crashes on a fetch,
+   answers nil, and the three readings of "no live data" are distinguished *)
+Definition ex_cf : Storage.config := mkConfig 2 600 1 (fun _ => true).
+Definition ex_sst (t : Z) : Storage.state := init_state [1].
+Definition ex_id (n : name) : Z := match n with [x] => x | _ => 0 end.
+Example ex_storage_unknown_cluster : unknown_cluster ex_sst ex_id 5 [9] /\ storage_lookup ex_cf ex_sst (fun t => t) ex_id ex_id 5 [9] [7] = None.
+Proof. split; vm_compute; reflexivity. Qed.
+Example ex_storage_unknown_group : unknown_group ex_sst ex_id ex_id 5 [1] [7] /\ ~ unknown_cluster ex_sst ex_id 5 [1].
+Proof. split; [eexists; split; vm_compute; reflexivity|vm_compute; discriminate]. Qed.
+Example ex_storage_no_crash : forall t c g, fetch ex_cf ex_sst (fun t => t) ex_id ex_id t c g <> Crashed.
+Proof.
+  intros t c g. unfold fetch, ex_sst, init_state. cbn [Storage.step map]. unfold fetch_consumer. cbn [get].
+  destruct (1 =? ex_id c); [cbn [cl_consumer get]|]; discriminate.
+Qed.
